@@ -588,3 +588,9 @@ M("C17", "jump weights from conj(L†L)", "kill",
   [(IMPL, "        self.aggregated_lindblad_ops = stacked.conj().transpose(1, 2) @ stacked", "        self.aggregated_lindblad_ops = torch.einsum(\"kij,kil->kjl\", stacked, stacked.conj())")], "ROLE-noise")
 M("C17", "twin: L†L written as an einsum", "twin",
   [(IMPL, "        self.aggregated_lindblad_ops = stacked.conj().transpose(1, 2) @ stacked", "        self.aggregated_lindblad_ops = torch.einsum(\"kij,kil->kjl\", stacked.conj(), stacked)")])
+M("C21", "merge drops the special case for the end point", "kill",
+  [(PA, "        if merged and t - merged[-1] <= _TIME_MERGE_TOLERANCE:\n            if t == 1.0:\n                merged[-1] = t\n            continue\n        merged.append(t)",
+    "        if not merged or t - merged[-1] > _TIME_MERGE_TOLERANCE:\n            merged.append(t)")], "TIMEEQ-merge")
+M("C21", "twin: merge written with the De Morgan dual", "twin",
+  [(PA, "        if merged and t - merged[-1] <= _TIME_MERGE_TOLERANCE:\n            if t == 1.0:\n                merged[-1] = t\n            continue\n        merged.append(t)",
+    "        if not merged or t - merged[-1] > _TIME_MERGE_TOLERANCE:\n            merged.append(t)\n        elif t == 1.0:\n            merged[-1] = t")])
